@@ -3,6 +3,7 @@ package main
 // Profile-specific request generation and side tables (lower-casing, tokens).
 
 import (
+	"fmt"
 	"math"
 	"sort"
 	"strings"
@@ -16,6 +17,10 @@ func (g *genState) genRequests(step int, docs map[uuid.UUID]Val) []requestSpec {
 		return g.reqsC01(docs)
 	case "c02":
 		return g.reqsC02(docs)
+	case "c04":
+		return g.reqsC04(docs)
+	case "c05":
+		return g.reqsC05(docs)
 	}
 	return nil
 }
@@ -256,6 +261,37 @@ func (g *genState) genFilter(depth int) (querySpec, bool) {
 	return q, true
 }
 
+var weightPool = []float32{-2, -1, -0.5, 0, 0.5, 1, 3}
+
+// C04: flat vector searches with limits around the collection size, weights and pre-filters
+func (g *genState) reqsC04(docs map[uuid.UUID]Val) []requestSpec {
+	r := g.r
+	var out []requestSpec
+	n := len(docs)
+	for k := 0; k < 6; k++ {
+		q := querySpec{kind: "flat", prop: "fv", vec: g.genVec(g.dim)}
+		switch r.IntN(4) {
+		case 0:
+			q.limit = 1 + r.IntN(75)
+		case 1:
+			q.limit = 1
+		default:
+			q.limit = 1 + r.IntN(n+3)
+		}
+		if r.IntN(2) == 0 {
+			w := weightPool[r.IntN(len(weightPool))]
+			q.weight = &w
+		}
+		if r.IntN(2) == 0 {
+			if f, ok := g.genFilter(1); ok {
+				q.filter = &f
+			}
+		}
+		out = append(out, requestSpec{q: q})
+	}
+	return out
+}
+
 // lowerTable: strings.ToLower of every string at a case-insensitive indexed path
 // of the live documents and of every string in the requests.
 func (g *genState) lowerTable(docs map[uuid.UUID]Val, reqs []requestSpec) string {
@@ -326,6 +362,12 @@ func (g *genState) lowerTable(docs map[uuid.UUID]Val, reqs []requestSpec) string
 
 func (g *genState) extraObs(env *shardEnv, docs map[uuid.UUID]Val, reqs []requestSpec) []string {
 	var out []string
+	if g.profile == "c04" {
+		out = append(out, g.extrasC04(env, docs, reqs)...)
+	}
+	if g.profile == "c05" {
+		out = append(out, g.extrasC05(docs, reqs)...)
+	}
 	if g.profile == "c01" || g.profile == "c10" {
 		if x, err := dumpPoints(env); err == nil {
 			out = append(out, x...)
@@ -384,4 +426,262 @@ func dumpPoints(env *shardEnv) ([]string, error) {
 		"(XDocs " + pS("points") + " " + pList(di) + ")",
 		"(XBucket " + pS("internal") + " " + pList(ii) + ")",
 	}, nil
+}
+
+func haversineRef(x, y []float32) float64 {
+	const degToRad = math.Pi / 180
+	latx, lonx, laty, lony := float64(x[0])*degToRad, float64(x[1])*degToRad, float64(y[0])*degToRad, float64(y[1])*degToRad
+	dlat, dlon := latx-laty, lonx-lony
+	a := math.Sin(dlat/2)*math.Sin(dlat/2) + math.Cos(latx)*math.Cos(laty)*math.Sin(dlon/2)*math.Sin(dlon/2)
+	return 6371000 * 2 * math.Asin(math.Sqrt(a))
+}
+
+func floatMetricRef(metric string, x, y []float32) float64 {
+	var s float64
+	switch metric {
+	case "euclidean":
+		for i := range x {
+			d := float64(x[i]) - float64(y[i])
+			s += d * d
+		}
+		return s
+	case "cosine", "dot":
+		for i := range x {
+			s += float64(x[i]) * float64(y[i])
+		}
+		if metric == "cosine" {
+			return 1 - s
+		}
+		return -s
+	}
+	return haversineRef(x, y)
+}
+
+func valVec(v Val) ([]float32, bool) {
+	if v.K != kArr {
+		return nil, false
+	}
+	out := make([]float32, len(v.A))
+	for i, e := range v.A {
+		if e.K != kF32 {
+			return nil, false
+		}
+		out[i] = math.Float32frombits(uint32(e.Bits))
+	}
+	return out, true
+}
+
+// extrasC04: persisted quantiser parameters and harness-side reference distances
+// (haversine; product quantiser from the persisted centroids and codes).
+func (g *genState) extrasC04(env *shardEnv, docs map[uuid.UUID]Val, reqs []requestSpec) []string {
+	var out []string
+	ix := g.schema[0]
+	bucket := "index/vectorFlat/" + ix.path
+	keys, vals, err := env.sh.VerifDumpBucket(bucket)
+	if err != nil {
+		return []string{"(XNote 903)"}
+	}
+	kvm := map[string][]byte{}
+	for i := range keys {
+		kvm[string(keys[i])] = vals[i]
+	}
+	f32s := func(b []byte) []float32 {
+		o := make([]float32, len(b)/4)
+		for i := range o {
+			o[i] = math.Float32frombits(uint32(b[4*i]) | uint32(b[4*i+1])<<8 | uint32(b[4*i+2])<<16 | uint32(b[4*i+3])<<24)
+		}
+		return o
+	}
+	if b, ok := kvm["_binaryQuantizerThreshold"]; ok {
+		out = append(out, "(XF32s "+pS(bucket)+" "+pS("_binaryQuantizerThreshold")+" "+pVec(f32s(b))+")")
+	}
+	needOracle := ix.metric == "haversine" || ix.q.kind == 3
+	if !needOracle {
+		return out
+	}
+	var centroids []float32
+	if b, ok := kvm["_productQuantizerFlatCentroids"]; ok {
+		centroids = f32s(b)
+	}
+	// node id of every live point (points bucket)
+	pkeys, pvals, err := env.sh.VerifDumpBucket("points")
+	if err != nil {
+		return append(out, "(XNote 904)")
+	}
+	nodeOf := map[uuid.UUID]uint64{}
+	for i, k := range pkeys {
+		if len(k) == 18 && k[0] == 'p' && k[17] == 'i' {
+			var u uuid.UUID
+			copy(u[:], k[1:17])
+			var n uint64
+			for j := 0; j < 8; j++ {
+				n |= uint64(pvals[i][j]) << (8 * uint(j))
+			}
+			nodeOf[u] = n
+		}
+	}
+	metric := ix.metric
+	if metric == "cosine" && ix.q.kind == 3 {
+		metric = "euclidean" // the product quantiser replaces cosine by euclidean
+	}
+	for qi, rq := range reqs {
+		if rq.q.kind != "flat" {
+			continue
+		}
+		var items []string
+		for id, d := range docs {
+			fv, ok := d.get(ix.path)
+			if !ok {
+				continue
+			}
+			vec, ok := valVec(fv)
+			if !ok || len(vec) != ix.dim {
+				continue
+			}
+			var ref float64
+			if ix.q.kind == 3 && len(centroids) > 0 {
+				nk := make([]byte, 10)
+				nk[0] = 'n'
+				for j := 0; j < 8; j++ {
+					nk[1+j] = byte(nodeOf[id] >> (8 * uint(j)))
+				}
+				nk[9] = 'q'
+				codes, ok := kvm[string(nk)]
+				if !ok {
+					continue
+				}
+				sub := ix.dim / ix.q.nsub
+				for i := 0; i < ix.q.nsub; i++ {
+					start := i*ix.q.ncent*sub + int(codes[i])*sub
+					c := centroids[start : start+sub]
+					switch metric {
+					case "euclidean":
+						ref += floatMetricRef("euclidean", rq.q.vec[i*sub:(i+1)*sub], c)
+					default: // dot: -dot per part
+						ref += floatMetricRef("dot", rq.q.vec[i*sub:(i+1)*sub], c)
+					}
+				}
+			} else if ix.q.kind == 3 {
+				ref = floatMetricRef(metric, rq.q.vec, vec)
+			} else {
+				ref = haversineRef(rq.q.vec, vec)
+			}
+			items = append(items, "("+pUUID(id)+", "+pN(math.Float64bits(ref))+")")
+		}
+		sort.Strings(items)
+		out = append(out, fmt.Sprintf("(XOracle %d %s)", qi, pList(items)))
+	}
+	return out
+}
+
+// C05: text queries (multi-term, repeated terms, stop words only, punctuation only,
+// mixed case, unicode), both operators, limits, weights, pre-filters
+func (g *genState) reqsC05(docs map[uuid.UUID]Val) []requestSpec {
+	r := g.r
+	var out []requestSpec
+	n := len(docs)
+	path := g.schema[0].path
+	for k := 0; k < 7; k++ {
+		var text string
+		switch r.IntN(10) {
+		case 0:
+			text = "the of and"
+		case 1:
+			text = "!!! ... -"
+		case 2:
+			w := g.pick(g.words)
+			text = w + " " + w + " " + strings.ToUpper(w)
+		case 3: // the text of a stored document
+			if st := g.storedAt(path); len(st) > 0 && st[0].K == kStr && st[0].S != "" {
+				text = st[r.IntN(len(st))].S
+			} else {
+				text = g.pick(g.words)
+			}
+		default:
+			m := 1 + r.IntN(3)
+			ws := make([]string, m)
+			for i := range ws {
+				ws[i] = g.pick(g.words)
+			}
+			text = strings.Join(ws, " ")
+		}
+		if text == "" {
+			text = "wizard"
+		}
+		q := querySpec{kind: "text", prop: path, sv: text, op: 8 + r.IntN(2)}
+		switch r.IntN(3) {
+		case 0:
+			q.limit = 1 + r.IntN(75)
+		case 1:
+			q.limit = 1 + r.IntN(2)
+		default:
+			q.limit = 1 + r.IntN(n+2)
+		}
+		if r.IntN(2) == 0 {
+			w := weightPool[r.IntN(len(weightPool))]
+			q.weight = &w
+		}
+		if r.IntN(3) == 0 {
+			if f, ok := g.genFilter(1); ok {
+				q.filter = &f
+			}
+		}
+		toks, err := text_VerifAnalyse(text)
+		if err != nil {
+			continue
+		}
+		q.terms = toks
+		out = append(out, requestSpec{q: q})
+	}
+	return out
+}
+
+// extrasC05: analysed tokens of every stored text and the table of logarithms
+func (g *genState) extrasC05(docs map[uuid.UUID]Val, reqs []requestSpec) []string {
+	path := g.schema[0].path
+	texts := map[string]struct{}{}
+	ndocs := 0
+	for _, d := range docs {
+		cur, ok := d, true
+		for _, p := range strings.Split(path, ".") {
+			if cur.K != kMap {
+				ok = false
+				break
+			}
+			cur, ok = cur.get(p)
+			if !ok {
+				break
+			}
+		}
+		if ok && cur.K == kStr {
+			texts[cur.S] = struct{}{}
+			if toks, err := text_VerifAnalyse(cur.S); err == nil && len(toks) > 0 {
+				ndocs++
+			}
+		}
+	}
+	keys := make([]string, 0, len(texts))
+	for k := range texts {
+		keys = append(keys, k)
+	}
+	sort.Strings(keys)
+	items := make([]string, 0, len(keys))
+	for _, k := range keys {
+		toks, err := text_VerifAnalyse(k)
+		if err != nil {
+			continue
+		}
+		ts := make([]string, len(toks))
+		for i, t := range toks {
+			ts[i] = pS(t)
+		}
+		items = append(items, "("+pS(k)+", "+pList(ts)+")")
+	}
+	// log10(n/(df+1)) for the current corpus size and every possible document frequency
+	logs := make([]string, 0, ndocs+1)
+	for df := 0; df <= ndocs; df++ {
+		l := math.Log10(float64(ndocs) / float64(df+1))
+		logs = append(logs, fmt.Sprintf("(%d, %d, %s)", ndocs, df, pN(math.Float64bits(l))))
+	}
+	return []string{"(XTokens " + pList(items) + ")", "(XLogs " + pList(logs) + ")"}
 }
